@@ -95,11 +95,11 @@ func TestC23(t *testing.T) {
 
 func TestC24(t *testing.T) {
 	r := rt.Start(t, "C24")
-	wls := []Workload{wlTrafficHostile, wlTrafficClean, wlConnectRandom, wlConnectExhaustive, wlSleep, wlFullWorld}
+	wls := []Workload{wlTrafficHostile, wlTrafficClean, wlConnectRandom, wlConnectExhaustive, wlSleep, wlFullWorld, wlSlowBroker}
 	runWorkloads(t, r, wls, func(g *GWRun) ([]monitors.V, int) {
 		return monitors.C24(g.Items, g.RestOut)
 	})
-	r.Finish("every MQTT packet the gateway wrote to the broker in the union of traffic-hostile (reserved topic-ID type, QoS 3 subscriptions, wildcard/NUL names registered and published, message ID 0, DUP with QoS 0, unknown IDs), traffic-clean, connect-random/exhaustive (WILLMSG without WILLTOPIC, empty/QoS-3 will topics, credentials incl. password without user) and sleep workloads is parsed and validated by the independent MQTT 3.1.1 codec: rules R1 (QoS 0-2; PUBLISH topic non-empty without wildcards; filters non-empty; will flag iff non-empty will topic) and R2 (reserved header flags, remaining length, protocol name/level, connect flag consistency, non-zero packet identifiers, no DUP with QoS 0, no trailing bytes). Sequence-level rules are not judged. "+trafficRule, nil)
+	r.Finish("every MQTT packet the gateway wrote to the broker in the union of slow-broker (partial writes towards a broker that stops reading and resumes), traffic-hostile (reserved topic-ID type, QoS 3 subscriptions, wildcard/NUL names registered and published, message ID 0, DUP with QoS 0, unknown IDs), traffic-clean, connect-random/exhaustive (WILLMSG without WILLTOPIC, empty/QoS-3 will topics, credentials incl. password without user) and sleep workloads is parsed and validated by the independent MQTT 3.1.1 codec: rules R1 (QoS 0-2; PUBLISH topic non-empty without wildcards; filters non-empty; will flag iff non-empty will topic) and R2 (reserved header flags, remaining length, protocol name/level, connect flag consistency, non-zero packet identifiers, no DUP with QoS 0, no trailing bytes). Sequence-level rules are not judged. "+trafficRule, nil)
 }
 
 func TestC14(t *testing.T) {
